@@ -356,9 +356,64 @@ impl<'p> Interp<'p> {
 		Ok(self.mk_fl(r))
 	}
 
+	/// a < b for the IEEE bit patterns of two finite floats read as signed / unsigned integers
+	fn bits_lt(&mut self, x: Fl, y: Fl, signed: bool) -> T {
+		let (ra, za) = self.fl_parts(x);
+		let (rb, zb) = self.fl_parts(y);
+		let zero = self.tm.real_i(0);
+		// sign bit set: negative value or -0.0
+		let a_lt0 = self.tm.lt(ra, zero);
+		let a_is0 = self.tm.eq(ra, zero);
+		let a_nz = self.tm.and(a_is0, za);
+		let sa = self.tm.or(a_lt0, a_nz);
+		let b_lt0 = self.tm.lt(rb, zero);
+		let b_is0 = self.tm.eq(rb, zero);
+		let b_nz = self.tm.and(b_is0, zb);
+		let sb = self.tm.or(b_lt0, b_nz);
+		let nsa = self.tm.not(sa);
+		let nsb = self.tm.not(sb);
+		// both sign bits clear: numeric order; both set: the magnitude bits order |a| vs |b|, i.e. a > b numerically
+		let num_lt = self.tm.lt(ra, rb);
+		let num_gt = self.tm.lt(rb, ra);
+		let both_pos = self.tm.and(nsa, nsb);
+		let both_neg = self.tm.and(sa, sb);
+		let c1 = self.tm.and(both_pos, num_lt);
+		let c2 = self.tm.and(both_neg, num_gt);
+		// mixed signs: signed view: the one with the sign bit is smaller; unsigned view: it is larger
+		let mixed = if signed { self.tm.and(sa, nsb) } else { self.tm.and(nsa, sb) };
+		let c12 = self.tm.or(c1, c2);
+		self.tm.or(c12, mixed)
+	}
+
 	pub fn bin_cmp(&mut self, op: &str, l: V, r: V) -> R<V> {
 		let l = self.deref_val(&l);
 		let r = self.deref_val(&r);
+		if let (V::Struct(n1, f1), V::Struct(n2, f2)) = (&l, &r) {
+			if n1 == n2 && (&**n1 == "__bitsint_s" || &**n1 == "__bitsint_u") {
+				let (x, y) = (f1[0].1.v.borrow().clone(), f2[0].1.v.borrow().clone());
+				if let (V::F(x), V::F(y)) = (x, y) {
+					let signed = &**n1 == "__bitsint_s";
+					let t = match op {
+						"==" => self.bits_eq(x, y),
+						"!=" => {
+							let e = self.bits_eq(x, y);
+							self.tm.not(e)
+						}
+						"<" => self.bits_lt(x, y, signed),
+						">" => self.bits_lt(y, x, signed),
+						"<=" => {
+							let g = self.bits_lt(y, x, signed);
+							self.tm.not(g)
+						}
+						_ => {
+							let g = self.bits_lt(x, y, signed);
+							self.tm.not(g)
+						}
+					};
+					return Ok(self.mk_bool(t));
+				}
+			}
+		}
 		let res = match (&l, &r) {
 			(V::F(Fl::C(x)), V::F(Fl::C(y))) => V::Bool(match op {
 				"==" => x == y,
@@ -528,6 +583,14 @@ impl<'p> Interp<'p> {
 	pub fn cast(&mut self, v: V, ty: &syn::Type) -> R<V> {
 		let v = self.deref_val(&v);
 		let h = self.resolve_type_head(ty);
+		if let V::Struct(n, fs) = &v {
+			if &**n == "__bits" && (h == "i64" || h == "u64" || h == "i32" || h == "u32") {
+				// the bit pattern of a float viewed as an integer: kept symbolic, only ordered comparisons and
+				// equality are supported (order of IEEE bit patterns of finite non-NaN values)
+				let name = if h.starts_with('i') { "__bitsint_s" } else { "__bitsint_u" };
+				return Ok(V::Struct(name.into(), fs.clone()));
+			}
+		}
 		if h == "f64" {
 			return match v {
 				V::F(f) => Ok(V::F(f)),
